@@ -830,7 +830,7 @@ HDR_KINDS = ["paos_request", "ecp_relay", "ecp_request", "ecp_response", "paos_r
 HDR_KINDS_FOREIGN = ["saml_issuer", "samlec_key"]      # classes outside one / both of the receivers' module lists
 
 # set to True to hand the POST / redirect packers the message as BYTES (what to_string() returns):
-# pack.http_form_post_message turns that into the text "b'...'" (str(bytes)) -- reported, not generated
+# pack.http_form_post_message used to turn that into the text "b'...'" (str(bytes)); repaired in /repo (fix: e14c2f96)
 GEN_BYTES_MESSAGE = True
 
 
